@@ -1094,6 +1094,9 @@ class TorConfig:
                             initial = []
                         else:
                             initial = [default]
+                elif isinstance(v, list):
+                    # several FooPort lines are configured
+                    initial = [self.parsers[rn].parse(x) for x in v]
                 else:
                     initial = [self.parsers[rn].parse(v)]
                 self.config[rn] = _ListWrapper(
